@@ -145,7 +145,9 @@ def compile_client(prog, ci, plan):
         for n in (1, 2):
             emit(call(b, t, "SetCurrentSelectedOutputUserNumber", n), "ret")
             emit(call(b, t, "SetSelectedOutputStringOn", 1), "ret")
-            if lc["outfile"]:
+            if lc["outfile"] and all(nm in W.CUSTOM for nm in lc["inputs"]):
+                # only for inputs that name no files themselves: shipped examples write fixed file names (ex8: -file Zn1e_4, which it
+                # then INCLUDE$s), and two clients running them in one directory would disturb each other through the file system
                 emit(call(b, t, "SetSelectedOutputFileOn", 1), "ret")
         emit(call(b, t, "SetCurrentSelectedOutputUserNumber", 1), "ret")
         for k, name in enumerate(lc["inputs"]):
